@@ -12,7 +12,7 @@ shutil.copyfile(src + '/seed_demo.rs', dst + '/seed_demo.rs')
 meta = json.load(open(src + '/meta.json'))
 ver = [l for l in open('/tmp/seed/verify.log') if l.startswith(c + ' ')]
 meta['verified_by_me'] = ver[-1].strip() if ver else 'not verified'
-out = subprocess.run(['/verif/tools/try_patch.sh', dst + '/patch.diff'], stdout=subprocess.PIPE, text=True).stdout
+out = subprocess.run(['/verif/tools/try_patch.sh', dst + '/patch.diff'], stdout=subprocess.PIPE).stdout.decode('utf-8', 'replace')
 det = {}
 cur = None
 for l in out.splitlines():
